@@ -39,6 +39,9 @@ func addScripts(kinds []*l1kit.Kind) {
 		// pipe removed while ready / while busy; failed transport send; the readyQ must forget it
 		{{K: "opt", A: wq, C: 1}, {K: "addpipe"}, {K: "addpipe"}, {K: "addpipe"}, {K: "hold", A: 1, B: 1}, {K: "hold", A: 2, B: 1}, {K: "hold", A: 3, B: 1}, {K: "drop", A: 1},
 			{K: "send"}, {K: "send"}, {K: "send"}, {K: "release", A: 2, B: 0}, {K: "release", A: 3, B: 1}, {K: "send"}, {K: "drop", A: 3}, {K: "addpipe"}, {K: "send"}},
+		// the peer goes away with a write in flight that still completes: the pipe is gone all the same, what is sent next goes
+		// to the peer that is still there
+		{{K: "opt", A: wq, C: 2}, {K: "addpipe"}, {K: "hold", A: 1, B: 1}, {K: "send"}, {K: "drop", A: 1, B: 1}, {K: "addpipe"}, {K: "send"}, {K: "send"}, {K: "send"}},
 		// no peers: queue fills, then Sends block; a pipe arrives and drains in order; fail-no-peers
 		{{K: "opt", A: wq, C: 2}, {K: "send"}, {K: "send"}, {K: "send"}, {K: "send"}, {K: "addpipe"}, {K: "opt", A: l1kit.OFailNoPeers, C: 1}, {K: "hold", A: 1, B: 1},
 			{K: "send"}, {K: "send"}, {K: "send"}, {K: "send"}, {K: "drop", A: 1}, {K: "send"}},
